@@ -23,7 +23,7 @@ ASSUMPTIONS = [
 COMPONENTS = {"real": ["TradingEnv.step (delay deque)", "Transmitter", "PortfolioSpace.null_action/make_rebalancing_request", "Broker.rebalance", "Exchange"],
               "harness": ["delivery model", "plain-list delay queue model"], "stub": []}
 PROBE_FLOORS = {"second_episode_on_same_env": 169, "delay_ge_2": 241, "discrete_with_delay": 100, "quote_exactly_on_latency_bound": 65,
-                "quote_1us_after_latency_bound": 43, "episode_shorter_than_delay": 20, "trade_priced": 2000, "late_event_with_latency": 70}
+                "quote_1us_after_latency_bound": 43, "episode_shorter_than_delay": 20, "trade_priced": 2000, "late_event_with_latency": 70, "thinly_quoted_contracts": 120}
 
 PROFILE = {
     "n_min": 2, "n_max": 12, "n_long": 40, "p_long": 0.1, "c_min": 1, "c_max": 3, "p_bar": 1.0, "extras_max": 10,
@@ -34,7 +34,26 @@ PROFILE = {
 
 
 def generate(rng, i):
-    env = gen_epi.gen_env(rng, PROFILE)
+    pf = PROFILE
+    if rng.random() < 0.2:
+        # thinly quoted contracts: every contract has a bar at the first timestep and the first contract at all of
+        # them, the others miss some bars (the last quote stamped <= t + latency is then an older one)
+        pf = dict(PROFILE, p_bar=0.7, bar_at_first=True)
+    env = gen_epi.gen_env(rng, pf)
+    env["thin"] = pf is not PROFILE
+    if env["thin"] and env["latency_us"] > 0 and len(env["contracts"]) >= 2 and len(env["grid"]) >= 4:
+        # motif: an episode that starts mid-stream (a fold) on a timestep where some contract has no bar and whose
+        # latest quote lies inside the previous timestep's latency window
+        from datetime import timedelta
+        grid = [core.parse_t(g) for g in env["grid"]]
+        k = rng.randint(1, len(grid) - 2)
+        c = rng.randrange(1, len(env["contracts"]))
+        env["events"] = [e for e in env["events"] if not (e["type"] == "nbbo" and e["c"] == c and grid[k - 1] < core.parse_t(e["t"]) <= grid[k] + timedelta(microseconds=env["latency_us"]))]
+        t = grid[k - 1] + timedelta(microseconds=rng.choice([env["latency_us"], max(1, env["latency_us"] // 2)]))
+        ref = [e for e in env["events"] if e["type"] == "nbbo" and e["c"] == c]
+        mid = (ref[0]["bid"] + ref[0]["ask"]) / 2 * rng.choice([0.9, 1.1])
+        env["events"].append({"t": core.iso(t), "type": "nbbo", "c": c, "bid": mid, "ask": mid, "id": 90000})
+        env["folds"] = {"a": [env["grid"][0], env["grid"][k - 1]], "b": [env["grid"][k], env["grid"][-1]]}
     if env["space"]["type"] == "discrete" and rng.random() < 0.5:
         n = len(env["space"]["allocations"][0])
         env["space"]["allocations"][0] = [rng.choice([0.0, 0.1, 0.2]) for _ in range(n)]
@@ -133,6 +152,8 @@ def execute(scenario):
         if violations:
             break
         n_exec = sum(1 for st in ep["steps"] if st.get("exc") is None and not st["done_before"])
+        if env_spec.get("thin"):
+            probe("thinly_quoted_contracts")
         if delay >= 2:
             probe("delay_ge_2")
         if sim.faults.get("events_added_after_construction") and env_spec["latency_us"]:
